@@ -53,10 +53,10 @@ def build(kind):
     item.inner.e = leaf("Inner E")
     item.d = cc.DictField(cc.StringField(), leaf())
     s.proto = item                        # the item schema is also mounted as an ordinary section (it then carries a key of its own)
-    s.items = cc.ListField(item)
+    s.items = cc.ListField(item, name="Item List")          # a display name on the list field is not part of any path
     s.backups = cc.ListField(item)
     s.ad = cc.DictField(value_field=leaf())       # any key, typed value
-    s.ts = cc.ListField(CT)
+    s.ts = cc.ListField(CT, name="Typed Items")
     s.d = cc.DictField(cc.StringField(), leaf(), name="Typed D")
     s.l = cc.ListField(leaf())
     s.w = cc.IntField(default=1)
